@@ -49,6 +49,14 @@ class Harness:
             warnings.simplefilter("ignore")
             impl.yarl.cache_configure()
         impl.clear_all_caches()
+        if impl.backend == "py":
+            # the quoter singletons as a fresh process has them: whatever a pure-Python quoter builds lazily on its first call is
+            # built again in every execution, so that two threads can meet inside that first call
+            from yarl import _quoters
+            for name, kw in list(impl.QUOTER_CONFIGS.items()) + list(impl.UNQUOTER_CONFIGS.items()):
+                obj = getattr(_quoters, name, None)
+                if obj is not None:
+                    obj.__init__(**kw)
         U = impl.URL
         self.T = pickle.loads(pickle.dumps(U("http://us:pw@Host.example:8042/a/b.txt?a=1&b=2#frag")))   # cold twin, empty cache
         self.B = U.build(scheme="http", user="us", password="pw", host="host.example", port=8042, path="/a/b.txt", query_string="a=1&b=2",
